@@ -1208,6 +1208,24 @@ func wlPruneReorg(r *core.Rand, a, d, s, m int) *gw {
 	return g
 }
 
+// boundary stream for the prune guard: blocks without spends have a fixed
+// record size (158 bytes up to height 16, 159 above), so with 1000-byte files
+// the files end with blocks 4, 10, 16, 22, 28.  A FlushUtxoCache right around a
+// file's last block puts the marker at / one below / one above the height the
+// guard of flushNeededAfterPrune compares with when that file is deleted.
+func wlPruneEdge(r *core.Rand, flushAfter int, n int) *gw {
+	g := newGW(r)
+	tip := 0
+	for i := 1; i <= n; i++ {
+		tip = g.add(tip, 0, 0)
+		g.deliver(tip)
+		if i == flushAfter {
+			g.ops = append(g.ops, "f")
+		}
+	}
+	return g
+}
+
 func (P) Generate(g *core.Gen) {
 	// emit one workload: first-level images with the given stride, a few torn
 	// variants, and second-level images (crash, reopen, re-feed, crash again;
@@ -1263,6 +1281,7 @@ func (P) Generate(g *core.Gen) {
 		emit("prune", 1, "2000:1000", wlLong(r, 14+r.Intn(3), false), 6, 2, 3)
 		emit("prune", 0, "2000:1000", wlLong(r, 11, true), 9, 1, 2)
 		emit("prune-reorg", r.Intn(2), "2000:1000", wlPruneReorg(r, 8+r.Intn(3), 1+r.Intn(2), 1, 1+r.Intn(2)), 4, 0, 0)
+		emit("prune-edge", 1, "2000:1000", wlPruneEdge(r, 15, 24), 5, 0, 0)
 	} else {
 		for i := 0; i < 8; i++ {
 			emit("linear", i%2, "0", wlLinear(r, 2+r.Intn(5)), 1, 1, 3)
@@ -1287,6 +1306,9 @@ func (P) Generate(g *core.Gen) {
 		for i := 0; i < 8; i++ {
 			prune := []string{"2000:1000", "3000:1000", "1600:800", "2400:1200"}[r.Intn(4)]
 			emit("prune", i%2, prune, wlLong(r, 14+r.Intn(12), i%3 == 0), 3, 4, 6)
+		}
+		for _, fa := range []int{8, 9, 10, 11, 14, 15, 16, 17} {
+			emit("prune-edge", 1, "2000:1000", wlPruneEdge(r, fa, 24), 2, 1, 3)
 		}
 		for i := 0; i < 10; i++ {
 			prune := []string{"2000:1000", "3000:1000", "1600:800"}[r.Intn(3)]
